@@ -32,6 +32,7 @@ package websocket
 //@ func (*Conn).validFrame
 //@   props C13
 //@   safety index slice nil div assert panic make
+//@   ensures kind: result != ErrMessageTooLarge && result != ErrControlMessageTooBig
 //@   ensures rfc: (result == nil) == (!(res1 && !c.enableCompression) && !res2 && !res3 && !(opcode > 2 && opcode < 8) && (fin || opcode == 0 || opcode == 1 || opcode == 2) && !(expectingFragments && (opcode == 1 || opcode == 2)))  // prop C13
 //@   assigns allocates
 
@@ -61,6 +62,10 @@ package websocket
 //@   ensures ctl64: old(c.bytesCached != nil && len(*c.bytesCached) >= 10 && plen7(c.bytesCached) == 127 && isCtl(opc(c.bytesCached)) && len64(c.bytesCached) > 125) ==> result6 != nil  // prop C13 C15
 //@   ensures lim7: old(limit(c) > 0 && c.bytesCached != nil && len(*c.bytesCached) >= 2 && plen7(c.bytesCached) < 126 && mlen(c) + plen7(c.bytesCached) > limit(c)) ==> result6 == ErrMessageTooLarge  // prop C15
 //@   ensures lim16: old(limit(c) > 0 && c.bytesCached != nil && len(*c.bytesCached) >= 4 && plen7(c.bytesCached) == 126 && mlen(c) + len16(c.bytesCached) > limit(c)) ==> result6 == ErrMessageTooLarge  // prop C15
+//@   note the limit is inclusive (C15, C12): a frame that keeps the assembled message within the limit is never refused as too large
+//@   ensures fits7: old(c.bytesCached != nil && len(*c.bytesCached) >= 2 && plen7(c.bytesCached) < 126 && (limit(c) <= 0 || mlen(c) + plen7(c.bytesCached) <= limit(c))) ==> result6 != ErrMessageTooLarge  // prop C15 C12
+//@   ensures fits16: old(c.bytesCached != nil && len(*c.bytesCached) >= 4 && plen7(c.bytesCached) == 126 && (limit(c) <= 0 || mlen(c) + len16(c.bytesCached) <= limit(c))) ==> result6 != ErrMessageTooLarge  // prop C15 C12
+//@   ensures fits64: old(c.bytesCached != nil && len(*c.bytesCached) >= 10 && plen7(c.bytesCached) == 127 && (*c.bytesCached)[2] < 128 && (limit(c) <= 0 || mlen(c) + len64(c.bytesCached) <= limit(c))) ==> result6 != ErrMessageTooLarge  // prop C15 C12
 //@   ensures valid: result3 && result6 == nil ==> 0 <= result1 && result1 <= 15 && !(result1 > 2 && result1 < 8) && (result4 || result1 <= 2) && !(old(c.expectingFragments) && (result1 == 1 || result1 == 2)) && (result5 ==> old(c.enableCompression))  // prop C13
 //@   ensures okbody: result3 ==> old(c.bytesCached) != nil && result0 >= 2 && result0 <= old(len(*c.bytesCached)) && 0 <= len(result2) && len(result2) + 2 <= result0 && (len(result2) > 0 ==> base(result2) == old(base(*c.bytesCached)))   // prop C12
 //@   ensures fields: result3 ==> result1 == old(opc(c.bytesCached)) && result4 == (old((*c.bytesCached)[0]) >= 128)   // prop C12 C13
